@@ -477,6 +477,54 @@ func c06Run(c *core.Ctx) {
 		}
 		report(kd, d, text, 200+len(text))
 	}
+	// (3e) multi-line literals line by line: every sequence of 2..3 (4 thorough) lines over a line alphabet
+	// (plain, trailing blanks, a // inside, quotes of each kind, blank-only, tab), as a backtick string and as a
+	// continued quoted string, in three statement places, top level and inside a function
+	{
+		lines := []string{"x", "x  ", "http://x", "http://x  ", "  ", "\"", "'", "// c \t", "a ' // \" "}
+		maxL := 3
+		if c.Thorough() {
+			maxL = 4
+		}
+		n := 0
+		for L := 2; L <= maxL; L++ {
+			gen.EachSeq(len(lines), L, func(idx []int) bool {
+				n++
+				if !c.Mine(int64(n)) {
+					return true
+				}
+				if c.Tick() {
+					return false
+				}
+				var parts []string
+				for _, x := range idx {
+					parts = append(parts, lines[x])
+				}
+				tpl := "`" + strings.Join(parts, "\n") + "`"
+				lits := []string{tpl}
+				if !strings.Contains(tpl, "\"") {
+					lits = append(lits, "\""+strings.Join(parts, "\\\n")+"\"")
+				}
+				for _, lit := range lits {
+					for _, src := range []string{
+						"let page = " + lit + ";\nf(page);",
+						"f(" + lit + ", a, " + lit + ");\ny;",
+						"function g() {\n  if (a) {\n    return " + lit + " + b;\n  }\n  z;\n}",
+					} {
+						c.Cur(src)
+						c.Inc("inputs")
+						c.Inc("literal_line_programs")
+						kd, d, acc := c06Check(src, false)
+						if acc {
+							c.Inc("accepted_programs")
+						}
+						report(kd, d, src, 60+len(src))
+					}
+				}
+				return true
+			})
+		}
+	}
 	// (3d) identifier spellings
 	for ii, name := range gen.Identifiers() {
 		if !c.Mine(int64(ii)) || c.Tick() {
